@@ -211,6 +211,18 @@ theorem Res.guard_panic_bind_eq_ok {α} {c : Prop} [Decidable c] {e : String} {k
     (if c then ((Res.panic e : Res Unit) >>= k) else k ()) = .ok r ↔ ¬ c ∧ k () = .ok r := by
   by_cases h : c <;> simp [h]
 
+theorem Dec.bind_congr {α β} {x : Dec α} {f g : α → Dec β} (h : ∀ a, x = .ok a → f a = g a) : (x >>= f) = (x >>= g) := by
+  cases x with
+  | ok a => simp only [Dec.bind_ok]; exact h a rfl
+  | err e => rfl
+
+theorem Res.bind_congr {α β} {x : Res α} {f g : α → Res β} (h : ∀ a, x = .ok a → f a = g a) : (x >>= f) = (x >>= g) := by
+  cases x with
+  | ok a => simp only [Res.bind_ok]; exact h a rfl
+  | err e => rfl
+  | panic e => rfl
+
+
 theorem Res.foldlM_inv {α β} (f : β → α → Res β) (P : β → Prop)
     (hf : ∀ b a b', P b → f b a = .ok b' → P b') (l : List α) (b b' : β) (hb : P b)
     (h : l.foldlM f b = .ok b') : P b' := by
